@@ -4,13 +4,11 @@
 use super::Stdio;
 use std::{
     io,
-    os::fd::{AsRawFd, FromRawFd, OwnedFd},
+    os::fd::{FromRawFd, OwnedFd},
 };
 
 pub(super) struct State {
     pub(super) ours: OwnedFd,
-    #[expect(dead_code)]
-    theirs: OwnedFd,
 }
 
 pub(super) fn setup_io(cmd: &mut std::process::Command) -> io::Result<State> {
@@ -100,6 +98,8 @@ pub(super) fn setup_io(cmd: &mut std::process::Command) -> io::Result<State> {
                 ours = std::os::fd::OwnedFd::from_raw_fd(fds[0]);
                 theirs = std::os::fd::OwnedFd::from_raw_fd(fds[1]);
             } else {
+                use std::os::fd::AsRawFd;
+
                 cvt(libc::pipe(fds.as_mut_ptr()))?;
 
                 ours = std::os::fd::OwnedFd::from_raw_fd(fds[0]);
@@ -109,10 +109,14 @@ pub(super) fn setup_io(cmd: &mut std::process::Command) -> io::Result<State> {
                 set_cloexec(theirs.as_raw_fd())?;
             }
         }
-
-        cmd.stderr(Stdio::from_raw_fd(theirs.as_raw_fd()))
-            .stdout(Stdio::from_raw_fd(theirs.as_raw_fd()));
     }
 
-    Ok(State { ours, theirs })
+    // Each `Stdio` owns (and eventually closes) its file descriptor, so stdout and stderr need a
+    // descriptor each: handing the same raw fd to both, while also keeping the `OwnedFd`, would
+    // close it three times.
+    let theirs_dup = theirs.try_clone()?;
+    cmd.stderr(Stdio::from(theirs_dup))
+        .stdout(Stdio::from(theirs));
+
+    Ok(State { ours })
 }
